@@ -92,7 +92,7 @@ Qed.
 Definition keys (r : registry) : list Z := map fst r.
 Definition hsum (r : registry) : Z := fold_right (fun p a => qsum (bq (snd p)) + a) 0 r.
 
-Lemma held_conn_hsum s : held_conn s = hsum (reg s).
+Lemma queued_conn_hsum s : queued_conn s = hsum (reg s).
 Proof. reflexivity. Qed.
 
 Lemma lookup_not_in x r : ~ In x (keys r) -> lookup x r = None.
@@ -188,13 +188,13 @@ Qed.
 Lemma hsum_set x b r : hsum (set x b r) = qsum (bq b) + hsum (remove x r).
 Proof. reflexivity. Qed.
 
-Lemma held_set x sid b r c : held x (mkSt (set sid b r) c) = if sid =? x then qsum (bq b) else held x (mkSt r c).
-Proof. unfold held. cbn [reg]. rewrite lookup_set. destruct (sid =? x); reflexivity. Qed.
+Lemma queued_set x sid b r c : queued x (mkSt (set sid b r) c) = if sid =? x then qsum (bq b) else queued x (mkSt r c).
+Proof. unfold queued. cbn [reg]. rewrite lookup_set. destruct (sid =? x); reflexivity. Qed.
 
-Lemma held_remove x sid r c : held x (mkSt (remove sid r) c) = if x =? sid then 0 else held x (mkSt r c).
-Proof. unfold held. cbn [reg]. rewrite lookup_remove. destruct (x =? sid); reflexivity. Qed.
+Lemma queued_remove x sid r c : queued x (mkSt (remove sid r) c) = if x =? sid then 0 else queued x (mkSt r c).
+Proof. unfold queued. cbn [reg]. rewrite lookup_remove. destruct (x =? sid); reflexivity. Qed.
 
-Lemma held_closing x r c c' : held x (mkSt r c) = held x (mkSt r c').
+Lemma queued_closing x r c c' : queued x (mkSt r c) = queued x (mkSt r c').
 Proof. reflexivity. Qed.
 
 (* ------------------------------------------------------------------------------------------ *)
@@ -253,12 +253,56 @@ Lemma pump_split q acked size p r a stt : pump q acked size = (p, r, a, stt) -> 
 Proof. intros H. apply (pump_spec _ _ _ _ _ _ _ H). Qed.
 
 (* ------------------------------------------------------------------------------------------ *)
+(* ------------------------------------------------------------------------------------------ *)
+(** * Live and released buffers *)
+
+Lemma lookup_live_some sid r b : lookup_live sid r = Some b -> lookup sid r = Some b /\ brel b = false.
+Proof.
+  unfold lookup_live. destruct (lookup sid r) as [b0|]; [|discriminate].
+  destruct (brel b0) eqn:E; [discriminate|]. intros H; injection H as <-. auto.
+Qed.
+
+Lemma lookup_live_of sid r b : lookup sid r = Some b -> brel b = false -> lookup_live sid r = Some b.
+Proof. intros H1 H2. unfold lookup_live. rewrite H1, H2. reflexivity. Qed.
+
+Lemma held_forfeited x s : held x s + forfeited x s = queued x s.
+Proof.
+  unfold held, forfeited, queued, lookup_live. destruct (lookup x (reg s)) as [b|]; [destruct (brel b)|]; lia.
+Qed.
+
+Lemma held_forfeited_conn s : held_conn s + forfeited_conn s = queued_conn s.
+Proof.
+  unfold held_conn, forfeited_conn, queued_conn. induction (reg s) as [|[k b] r IH]; cbn [fold_right snd]; [lia|].
+  destruct (brel b); lia.
+Qed.
+
+(* ------------------------------------------------------------------------------------------ *)
 (** * What one buffer operation does to the ledger *)
 
-(* a buffer operation on stream sid that turns b into b' and emits o: nothing is received or dropped, and
-   exactly the credit that left the queue is acknowledged, all of it for sid *)
-Definition local_ok (sid : Z) (b b' : buf) (o : list out) : Prop :=
-  sums o zero (at_ sid (qsum (bq b) - qsum (bq b'))) zero 0 (qsum (bq b) - qsum (bq b')) 0.
+Definition q_ok (q : list item) : Prop := Forall (fun it => 0 <= it_ack it) q.
+
+Lemma qsum_nonneg q : q_ok q -> 0 <= qsum q.
+Proof. induction 1 as [|it q Hit _ IH]; [cbn; lia|rewrite qsum_cons; lia]. Qed.
+
+(* a buffer operation on stream sid that turns b into b' and emits o: nothing is received, exactly the credit
+   that left the queue is acknowledged, all of it for sid; d / dA are the ghost ODrop sums *)
+Definition local_sums (sid : Z) (b b' : buf) (o : list out) (d : Z -> Z) (dA : Z) : Prop :=
+  sums o zero (at_ sid (qsum (bq b) - qsum (bq b'))) d 0 (qsum (bq b) - qsum (bq b')) dA.
+
+(* never lengthens the credit queue and keeps its items non-negative *)
+Definition shrinks (b b' : buf) : Prop := q_ok (bq b') /\ qsum (bq b') <= qsum (bq b).
+
+(* keeps the released flag, and an empty queue stays empty *)
+Definition keeps (b b' : buf) : Prop := brel b' = brel b /\ (bq b = [] -> bq b' = []).
+
+Definition op_ok (sid : Z) (b b' : buf) (o : list out) : Prop :=
+  exists d dA, local_sums sid b b' o d dA /\
+               (q_ok (bq b) -> (forall x, 0 <= d x) /\ 0 <= dA /\ shrinks b b').
+
+Definition local_ok (sid : Z) (b b' : buf) (o : list out) : Prop := local_sums sid b b' o zero 0.
+
+Lemma op_ok_of sid b b' o : local_ok sid b b' o -> (q_ok (bq b) -> shrinks b b') -> op_ok sid b b' o.
+Proof. intros H1 H2. exists zero, 0. split; [exact H1|]. intros Hq. unfold zero. repeat split; try lia; apply H2; exact Hq. Qed.
 
 Lemma sums_ext o r c d rA cA dA r' c' d' rA' cA' dA' :
   sums o r c d rA cA dA ->
@@ -271,17 +315,22 @@ Qed.
 
 Lemma local_ok_same sid b b' o : bq b' = bq b -> sums o zero zero zero 0 0 0 -> local_ok sid b b' o.
 Proof.
-  intros Hq H. unfold local_ok. rewrite Hq.
+  intros Hq H. unfold local_ok, local_sums. rewrite Hq.
   eapply sums_ext; [exact H|..]; intros; unfold zero, at_; try lia.
   destruct (sid =? x); lia.
 Qed.
 
-Lemma finish_queue q a e size b' res : finish q a e size = (b', res) -> bq b' = q.
+Lemma finish_queue q a e rl size b' res : finish q a e rl size = (b', res) -> bq b' = q.
 Proof.
   unfold finish. destruct (e && (a =? 0)); [|destruct (a <? size)]; intros H; injection H as <- _; reflexivity.
 Qed.
 
-Lemma finish_pend q a e size b' res : finish q a e size = (b', res) -> bpend b' = None.
+Lemma finish_pend q a e rl size b' res : finish q a e rl size = (b', res) -> bpend b' = None.
+Proof.
+  unfold finish. destruct (e && (a =? 0)); [|destruct (a <? size)]; intros H; injection H as <- _; reflexivity.
+Qed.
+
+Lemma finish_rel q a e rl size b' res : finish q a e rl size = (b', res) -> brel b' = rl.
 Proof.
   unfold finish. destruct (e && (a =? 0)); [|destruct (a <? size)]; intros H; injection H as <- _; reflexivity.
 Qed.
@@ -298,78 +347,197 @@ Proof.
     rewrite Hq, qsum_app. eapply sums_ext; [exact H|..]; intros; unfold zero, at_; try lia.
     destruct (sid =? x); lia. }
   destruct stt.
-  - destruct (finish r a (beof b) size) as [b1 res] eqn:Hf. intros H; injection H as <- <-.
-    unfold local_ok. apply Hgen; [|apply (finish_queue _ _ _ _ _ _ Hf)].
+  - destruct (finish r a (beof b) (brel b) size) as [b1 res] eqn:Hf. intros H; injection H as <- <-.
+    unfold local_ok, local_sums. apply Hgen; [|apply (finish_queue _ _ _ _ _ _ _ Hf)].
     intros x [<-|[]]. exact I.
-  - destruct (finish r a (beof b) size) as [b1 res] eqn:Hf. intros H; injection H as <- <-.
-    unfold local_ok. apply Hgen; [|apply (finish_queue _ _ _ _ _ _ Hf)].
+  - destruct (finish r a (beof b) (brel b) size) as [b1 res] eqn:Hf. intros H; injection H as <- <-.
+    unfold local_ok, local_sums. apply Hgen; [|apply (finish_queue _ _ _ _ _ _ _ Hf)].
     intros x [<-|[]]. exact I.
-  - intros H; injection H as <- <-. unfold local_ok. cbn [bq]. apply Hgen; [|reflexivity].
+  - intros H; injection H as <- <-. unfold local_ok, local_sums. cbn [bq]. apply Hgen; [|reflexivity].
     intros x [<-|[]]. exact I.
+Qed.
+
+Lemma read_loop_queue sid b size b' o : read_loop sid b size = (b', o) ->
+  exists p, bq b = p ++ bq b' /\ brel b' = brel b.
+Proof.
+  unfold read_loop. destruct (pump (bq b) (backed b) size) as [[[p r] a] stt] eqn:Hp.
+  pose proof (pump_split _ _ _ _ _ _ _ Hp) as Hq. exists p.
+  destruct stt.
+  - destruct (finish r a (beof b) (brel b) size) as [b1 res] eqn:Hf. injection H as <- _.
+    rewrite (finish_queue _ _ _ _ _ _ _ Hf), (finish_rel _ _ _ _ _ _ _ Hf). auto.
+  - destruct (finish r a (beof b) (brel b) size) as [b1 res] eqn:Hf. injection H as <- _.
+    rewrite (finish_queue _ _ _ _ _ _ _ Hf), (finish_rel _ _ _ _ _ _ _ Hf). auto.
+  - injection H as <- _. cbn [bq brel]. auto.
+Qed.
+
+Lemma read_loop_shrinks sid b size b' o : q_ok (bq b) -> read_loop sid b size = (b', o) -> shrinks b b'.
+Proof.
+  intros Hq H. destruct (read_loop_queue _ _ _ _ _ H) as (p & Hs & _). unfold q_ok in Hq. rewrite Hs in Hq.
+  apply Forall_app in Hq as [Hqp Hqr]. pose proof (qsum_nonneg _ Hqp). unfold shrinks. rewrite Hs, qsum_app.
+  split; [exact Hqr|lia].
+Qed.
+
+Lemma read_loop_keeps sid b size b' o : read_loop sid b size = (b', o) -> keeps b b'.
+Proof.
+  intros H. destruct (read_loop_queue _ _ _ _ _ H) as (p & Hs & Hr). split; [exact Hr|].
+  intros Hn. rewrite Hn in Hs. symmetry in Hs. apply app_eq_nil in Hs. apply Hs.
 Qed.
 
 Lemma sums_one_ghost x : match x with OBlock _ | ORead _ _ => True | _ => False end -> sums [x] zero zero zero 0 0 0.
 Proof. intros H. apply sums_ghost. intros y [<-|[]]. exact H. Qed.
 
-Lemma buf_read_ok sid b size b' o : buf_read sid b size = (b', o) -> local_ok sid b b' o.
+Lemma shrinks_same b b' : q_ok (bq b) -> bq b' = bq b -> shrinks b b'.
+Proof. intros Hq He. unfold shrinks. rewrite He. split; [exact Hq|lia]. Qed.
+
+Lemma keeps_same b b' : bq b' = bq b -> brel b' = brel b -> keeps b b'.
+Proof. intros H1 H2. split; [exact H2|]. intros Hn. rewrite H1. exact Hn. Qed.
+
+(* Buffer.read: same queue / ghost output in every branch but the loop *)
+Lemma buf_read_cases sid b size b' o : buf_read sid b size = (b', o) ->
+  (bq b' = bq b /\ brel b' = brel b /\ sums o zero zero zero 0 0 0) \/ read_loop sid b size = (b', o).
 Proof.
   unfold buf_read. destruct (bpend b).
-  { intros H; injection H as <- <-. apply local_ok_same; [reflexivity|]. apply sums_one_ghost. exact I. }
-  destruct (size <? 0).
-  { intros H; injection H as <- <-. apply local_ok_same; [reflexivity|]. apply sums_one_ghost. exact I. }
-  destruct (size =? 0).
-  { intros H; injection H as <- <-. apply local_ok_same; [reflexivity|]. apply sums_one_ghost. exact I. }
+  { intros H; injection H as <- <-. left. split; [reflexivity|split; [reflexivity|apply sums_one_ghost; exact I]]. }
+  destruct (size <? 0). { intros H; injection H as <- <-. left. split; [reflexivity|split; [reflexivity|apply sums_one_ghost; exact I]]. }
+  destruct (size =? 0). { intros H; injection H as <- <-. left. split; [reflexivity|split; [reflexivity|apply sums_one_ghost; exact I]]. }
   destruct (beof b && is_nil (bq b)).
-  - destruct (finish (bq b) (backed b) (beof b) size) as [b1 res] eqn:Hf.
-    intros H; injection H as <- <-. apply local_ok_same; [apply (finish_queue _ _ _ _ _ _ Hf)|].
-    apply sums_one_ghost. exact I.
-  - apply read_loop_ok.
+  - destruct (finish (bq b) (backed b) (beof b) (brel b) size) as [b1 res] eqn:Hf.
+    intros H; injection H as <- <-. left.
+    rewrite (finish_queue _ _ _ _ _ _ _ Hf), (finish_rel _ _ _ _ _ _ _ Hf).
+    split; [reflexivity|split; [reflexivity|apply sums_one_ghost; exact I]].
+  - intros H. right. exact H.
+Qed.
+
+Lemma buf_wake_cases sid b b' o : buf_wake sid b = (b', o) ->
+  (bq b' = bq b /\ brel b' = brel b /\ sums o zero zero zero 0 0 0) \/ exists size, read_loop sid b size = (b', o).
+Proof.
+  unfold buf_wake. destruct (bpend b) as [size|].
+  - destruct (is_nil (bq b)).
+    + intros H; injection H as <- <-. left. split; [reflexivity|split; [reflexivity|apply sums_nil]].
+    + intros H. right. exists size. exact H.
+  - intros H; injection H as <- <-. left. split; [reflexivity|split; [reflexivity|apply sums_nil]].
+Qed.
+
+Lemma buf_read_ok sid b size b' o : buf_read sid b size = (b', o) -> local_ok sid b b' o.
+Proof.
+  intros H. destruct (buf_read_cases _ _ _ _ _ H) as [(Hq & _ & Hs)|Hl];
+    [apply local_ok_same; assumption|eapply read_loop_ok; exact Hl].
 Qed.
 
 Lemma buf_wake_ok sid b b' o : buf_wake sid b = (b', o) -> local_ok sid b b' o.
 Proof.
-  unfold buf_wake. destruct (bpend b) as [size|].
-  - destruct (is_nil (bq b)).
-    + intros H; injection H as <- <-. apply local_ok_same; [reflexivity|apply sums_nil].
-    + apply read_loop_ok.
-  - intros H; injection H as <- <-. apply local_ok_same; [reflexivity|apply sums_nil].
+  intros H. destruct (buf_wake_cases _ _ _ _ H) as [(Hq & _ & Hs)|[size Hl]];
+    [apply local_ok_same; assumption|eapply read_loop_ok; exact Hl].
+Qed.
+
+Lemma buf_read_op sid b size b' o : buf_read sid b size = (b', o) -> op_ok sid b b' o /\ keeps b b'.
+Proof.
+  intros H. split.
+  - apply op_ok_of; [eapply buf_read_ok; exact H|]. intros Hq.
+    destruct (buf_read_cases _ _ _ _ _ H) as [(He & _ & _)|Hl];
+      [apply shrinks_same; assumption|eapply read_loop_shrinks; eassumption].
+  - destruct (buf_read_cases _ _ _ _ _ H) as [(He & Hr & _)|Hl];
+      [apply keeps_same; assumption|eapply read_loop_keeps; exact Hl].
+Qed.
+
+Lemma buf_wake_op sid b b' o : buf_wake sid b = (b', o) -> op_ok sid b b' o /\ keeps b b'.
+Proof.
+  intros H. split.
+  - apply op_ok_of; [eapply buf_wake_ok; exact H|]. intros Hq.
+    destruct (buf_wake_cases _ _ _ _ H) as [(He & _ & _)|[size Hl]];
+      [apply shrinks_same; assumption|eapply read_loop_shrinks; eassumption].
+  - destruct (buf_wake_cases _ _ _ _ H) as [(He & Hr & _)|[size Hl]];
+      [apply keeps_same; assumption|eapply read_loop_keeps; exact Hl].
+Qed.
+
+Lemma buf_cancel_op sid b : op_ok sid b (buf_cancel b) [] /\ keeps b (buf_cancel b).
+Proof.
+  split; [|apply keeps_same; reflexivity].
+  apply op_ok_of; [apply local_ok_same; [reflexivity|apply sums_nil]|]. intros Hq. apply shrinks_same; [exact Hq|reflexivity].
+Qed.
+
+Lemma buf_eof_op sid b : op_ok sid b (buf_eof b) [] /\ brel (buf_eof b) = brel b.
+Proof.
+  split; [|reflexivity]. apply op_ok_of.
+  - unfold local_ok, local_sums, buf_eof. cbn [bq]. rewrite qsum_app. cbn [qsum fold_right eof_marker it_ack].
+    eapply sums_ext; [exact sums_nil|..]; intros; unfold zero, at_; try lia. destruct (sid =? x); lia.
+  - intros Hq. unfold shrinks, buf_eof. cbn [bq]. rewrite qsum_app. cbn [qsum fold_right eof_marker it_ack].
+    split; [|lia]. apply Forall_app. split; [exact Hq|]. constructor; [unfold eof_marker; cbn [it_ack]; lia|constructor].
+Qed.
+
+(* release_stream: acknowledges the whole queue and drains it, or (closing) leaves everything as it is *)
+Lemma buf_release_op sid c b :
+  op_ok sid b (buf_release c b) (if c then [ODrop sid (qsum (bq b))] else ack_out sid (qsum (bq b))).
+Proof.
+  unfold op_ok, local_sums, buf_release. cbn [bq]. destruct c.
+  - exists (at_ sid (qsum (bq b))), (qsum (bq b)). split.
+    + unfold sums, received, credited, dropped, received_conn, credited_conn, dropped_conn, zero, at_.
+      repeat split; intros; rewrite total_cons, total_nil; cbn [recv1 cred1 drop1 recvA credA dropA]; try lia;
+        destruct (sid =? x); lia.
+    + intros Hq. pose proof (qsum_nonneg _ Hq). unfold shrinks, at_. cbn [bq]. repeat split; try lia; try exact Hq.
+      intros x. destruct (sid =? x); lia.
+  - exists zero, 0. split.
+    + cbn [qsum fold_right]. eapply sums_ext; [apply sums_ack_out|..]; intros; unfold zero, at_; try lia.
+      destruct (sid =? x); lia.
+    + intros Hq. pose proof (qsum_nonneg _ Hq). unfold shrinks, zero. cbn [bq qsum fold_right].
+      repeat split; try lia. constructor.
 Qed.
 
 (* ------------------------------------------------------------------------------------------ *)
-(** * One step: the balance equation *)
+(** * One step = at most one buffer update *)
 
-(* credit that becomes unreachable when `Open` overwrites a registered stream (0 in legal histories) *)
+Inductive upd (P : buf -> Prop) (s : st) (sid : Z) (f : buf -> buf * list out) (dflt : list out)
+          (s' : st) (o : list out) : Prop :=
+| upd_none : s' = s -> o = dflt -> upd P s sid f dflt s' o
+| upd_some b b' : lookup sid (reg s) = Some b -> P b -> f b = (b', o) ->
+                  s' = mkSt (set sid b' (reg s)) (closing s) -> upd P s sid f dflt s' o.
+
+Lemma with_buf_upd s sid f dflt s' o : with_buf s sid f dflt = (s', o) -> upd (fun _ => True) s sid f dflt s' o.
+Proof.
+  unfold with_buf. destruct (lookup sid (reg s)) as [b|] eqn:Hl.
+  - destruct (f b) as [b' ob] eqn:Hf. intros H; injection H as <- <-. eapply upd_some; eauto.
+  - intros H; injection H as <- <-. apply upd_none; reflexivity.
+Qed.
+
+Lemma with_live_buf_upd s sid f dflt s' o :
+  with_live_buf s sid f dflt = (s', o) -> upd (fun b => brel b = false) s sid f dflt s' o.
+Proof.
+  unfold with_live_buf. destruct (lookup_live sid (reg s)) as [b|] eqn:Hl.
+  - apply lookup_live_some in Hl as [Hl Hr]. destruct (f b) as [b' ob] eqn:Hf. intros H; injection H as <- <-.
+    eapply upd_some; eauto.
+  - intros H; injection H as <- <-. apply upd_none; reflexivity.
+Qed.
+
+(* credit that becomes unreachable when `Open` overwrites an id that was used before (0 in legal histories) *)
 Definition orphan (x : Z) (s : st) (e : event) : Z :=
-  match e with Open sid => if sid =? x then held x s else 0 | _ => 0 end.
+  match e with Open sid => if sid =? x then queued x s else 0 | _ => 0 end.
 Definition orphan_conn (s : st) (e : event) : Z :=
-  match e with Open sid => held sid s | _ => 0 end.
+  match e with Open sid => queued sid s | _ => 0 end.
 
 Definition balance (s : st) (e : event) (s' : st) (o : list out) : Prop :=
-  (forall x, received x o + held x s = credited x o + dropped x o + held x s' + orphan x s e) /\
+  (forall x, received x o + queued x s = credited x o + queued x s' + orphan x s e) /\
   (NoDup (keys (reg s)) ->
-   received_conn o + held_conn s = credited_conn o + dropped_conn o + held_conn s' + orphan_conn s e /\
+   received_conn o + queued_conn s = credited_conn o + queued_conn s' + orphan_conn s e /\
    NoDup (keys (reg s'))).
 
-Lemma with_buf_balance s sid f dflt e s' o :
-  (forall b b' ob, f b = (b', ob) -> local_ok sid b b' ob) ->
+Lemma upd_balance (P : buf -> Prop) s sid f dflt e s' o :
+  (forall b b' ob, P b -> f b = (b', ob) -> op_ok sid b b' ob) ->
   sums dflt zero zero zero 0 0 0 ->
   (forall x, orphan x s e = 0) -> orphan_conn s e = 0 ->
-  with_buf s sid f dflt = (s', o) -> balance s e s' o.
+  upd P s sid f dflt s' o -> balance s e s' o.
 Proof.
-  intros Hf Hd Ho HoA. unfold with_buf. destruct (lookup sid (reg s)) as [b|] eqn:Hl.
-  - destruct (f b) as [b' ob] eqn:Hfb. intros H; injection H as <- <-.
-    destruct (Hf _ _ _ Hfb) as (Hr & Hc & Hdr & HrA & HcA & HdA).
-    split.
-    + intros x. rewrite Hr, Hc, Hdr, Ho, held_set. unfold zero, at_.
+  intros Hf Hd Ho HoA [-> ->|b b' Hl HP Hfb ->].
+  - destruct Hd as (Hr & Hc & _ & HrA & HcA & _). split.
+    + intros x. rewrite Hr, Hc, Ho. unfold zero. lia.
+    + intros Hnd. split; [|exact Hnd]. rewrite HrA, HcA, HoA. lia.
+  - destruct (Hf _ _ _ HP Hfb) as (d & dA & (Hr & Hc & _ & HrA & HcA & _) & _). split.
+    + intros x. rewrite Hr, Hc, Ho, queued_set. unfold zero, at_.
       destruct (sid =? x) eqn:E.
-      * assert (sid = x) by lia. subst x. unfold held. rewrite Hl. lia.
+      * assert (sid = x) by lia. subst x. unfold queued. rewrite Hl. lia.
       * destruct s as [rg cl]; cbn [reg closing]. lia.
     + intros Hnd. split; [|cbn [reg]; apply NoDup_set; exact Hnd].
-      rewrite HrA, HcA, HdA, HoA, !held_conn_hsum. cbn [reg]. rewrite hsum_set.
+      rewrite HrA, HcA, HoA, !queued_conn_hsum. cbn [reg]. rewrite hsum_set.
       rewrite (hsum_remove sid b (reg s) Hnd Hl). lia.
-  - intros H; injection H as <- <-. destruct Hd as (Hr & Hc & Hdr & HrA & HcA & HdA). split.
-    + intros x. rewrite Hr, Hc, Hdr, Ho. unfold zero. lia.
-    + intros Hnd. split; [|exact Hnd]. rewrite HrA, HcA, HdA, HoA. lia.
 Qed.
 
 Lemma sums_cons_recv sid f o r c d rA cA dA :
@@ -382,74 +550,62 @@ Proof.
     rewrite ?Hr, ?Hc, ?Hd, ?HrA, ?HcA, ?HdA; reflexivity.
 Qed.
 
+Lemma qsum_buf_add b n f : qsum (bq (buf_add b n f)) = qsum (bq b) + f.
+Proof.
+  unfold buf_add. destruct (f =? 0) eqn:E; [lia|]. cbn [bq]. rewrite qsum_app. cbn [qsum fold_right it_ack]. lia.
+Qed.
+
 Lemma step_balance s e s' o : step s e = (s', o) -> balance s e s' o.
 Proof.
-  destruct e as [sid|sid n pad|sid|sid size|sid|sid|sid|]; cbn [step].
+  destruct e as [sid|sid n pad|sid|sid size|sid|sid|sid| | |]; cbn [step].
   - (* Open *) intros H; injection H as <- <-. split.
-    + intros x. cbn [orphan]. rewrite held_set. unfold received, credited, dropped. rewrite !total_nil.
+    + intros x. cbn [orphan]. rewrite queued_set. unfold received, credited. rewrite !total_nil.
       cbn [bq new_buf qsum fold_right].
       destruct (sid =? x); [lia|]. destruct s as [rg cl]; cbn [reg closing]; lia.
     + intros Hnd. split; [|cbn [reg]; apply NoDup_set; exact Hnd].
-      unfold received_conn, credited_conn, dropped_conn. rewrite !total_nil, !held_conn_hsum.
+      unfold received_conn, credited_conn. rewrite !total_nil, !queued_conn_hsum.
       cbn [reg orphan_conn]. rewrite hsum_set. cbn [bq new_buf qsum fold_right].
-      unfold held. destruct (lookup sid (reg s)) as [b|] eqn:Hl.
+      unfold queued. destruct (lookup sid (reg s)) as [b|] eqn:Hl.
       * rewrite (hsum_remove sid b (reg s) Hnd Hl). lia.
       * rewrite (hsum_remove_none sid (reg s) Hl). lia.
-  - (* Data *) destruct (lookup sid (reg s)) as [b|] eqn:Hl; intros H; injection H as <- <-.
-    + destruct (sums_cons_recv sid (fcl n pad) [] _ _ _ _ _ _ sums_nil) as (Hr & Hc & Hd & HrA & HcA & HdA).
-      assert (Hq : qsum (bq (buf_add b n (fcl n pad))) = qsum (bq b) + fcl n pad).
-      { unfold buf_add. destruct (fcl n pad =? 0) eqn:E; [lia|]. cbn [bq]. rewrite qsum_app.
-        cbn [qsum fold_right it_ack]. lia. }
-      split.
-      * intros x. rewrite Hr, Hc, Hd, held_set. cbn [orphan]. unfold zero, at_.
+  - (* Data *) destruct (lookup_live sid (reg s)) as [b|] eqn:Hl; intros H; injection H as <- <-.
+    + apply lookup_live_some in Hl as [Hl _].
+      destruct (sums_cons_recv sid (fcl n pad) [] _ _ _ _ _ _ sums_nil) as (Hr & Hc & _ & HrA & HcA & _).
+      pose proof (qsum_buf_add b n (fcl n pad)) as Hq. split.
+      * intros x. rewrite Hr, Hc, queued_set. cbn [orphan]. unfold zero, at_.
         destruct (sid =? x) eqn:E.
-        -- assert (sid = x) by lia. subst x. unfold held. rewrite Hl. lia.
+        -- assert (sid = x) by lia. subst x. unfold queued. rewrite Hl. lia.
         -- destruct s as [rg cl]; cbn [reg closing]. lia.
       * intros Hnd. split; [|cbn [reg]; apply NoDup_set; exact Hnd].
-        rewrite HrA, HcA, HdA, !held_conn_hsum. cbn [reg orphan_conn]. rewrite hsum_set.
+        rewrite HrA, HcA, !queued_conn_hsum. cbn [reg orphan_conn]. rewrite hsum_set.
         rewrite (hsum_remove sid b (reg s) Hnd Hl). lia.
     + destruct (sums_cons_recv sid (fcl n pad) _ _ _ _ _ _ _ (sums_ack_out sid (fcl n pad)))
-        as (Hr & Hc & Hd & HrA & HcA & HdA).
+        as (Hr & Hc & _ & HrA & HcA & _).
       split.
-      * intros x. rewrite Hr, Hc, Hd. cbn [orphan]. unfold zero, at_. destruct (sid =? x); lia.
-      * intros Hnd. split; [|exact Hnd]. rewrite HrA, HcA, HdA. cbn [orphan_conn]. lia.
-  - (* EndStream *) apply with_buf_balance; try reflexivity; [|apply sums_nil].
-    intros b b' ob H; injection H as <- <-. unfold local_ok, buf_eof. cbn [bq].
-    rewrite qsum_app. cbn [qsum fold_right eof_marker it_ack].
-    eapply sums_ext; [exact sums_nil|..]; intros; unfold zero, at_; try lia. destruct (sid =? x); lia.
-  - (* Read *) apply with_buf_balance; try reflexivity; [|apply sums_one_ghost; exact I].
-    intros b b' ob. apply buf_read_ok.
-  - (* Wake *) apply with_buf_balance; try reflexivity; [|apply sums_nil].
-    intros b b' ob. apply buf_wake_ok.
-  - (* Cancel *) apply with_buf_balance; try reflexivity; [|apply sums_nil].
-    intros b b' ob H; injection H as <- <-. apply local_ok_same; [reflexivity|apply sums_nil].
-  - (* Release *) destruct (lookup sid (reg s)) as [b|] eqn:Hl; intros H; injection H as <- <-.
-    + assert (Hs : sums (if closing s then [ODrop sid (qsum (bq b))] else ack_out sid (qsum (bq b)))
-                        zero (at_ sid (if closing s then 0 else qsum (bq b)))
-                        (at_ sid (if closing s then qsum (bq b) else 0)) 0
-                        (if closing s then 0 else qsum (bq b)) (if closing s then qsum (bq b) else 0)).
-      { destruct (closing s).
-        - unfold sums, received, credited, dropped, received_conn, credited_conn, dropped_conn, zero, at_.
-          repeat split; intros; rewrite total_cons, total_nil; cbn [recv1 cred1 drop1 recvA credA dropA]; try lia;
-            destruct (sid =? x); lia.
-        - eapply sums_ext; [apply sums_ack_out|..]; intros; unfold zero, at_; try lia. destruct (sid =? x); lia. }
-      destruct Hs as (Hr & Hc & Hd & HrA & HcA & HdA). split.
-      * intros x. rewrite Hr, Hc, Hd, held_remove. cbn [orphan]. unfold zero, at_.
-        destruct (sid =? x) eqn:E.
-        -- assert (sid = x) by lia. subst x. rewrite Z.eqb_refl. unfold held. rewrite Hl.
-           destruct (closing s); lia.
-        -- destruct (x =? sid) eqn:E2; [exfalso; lia|]. destruct s as [rg cl]; cbn [reg closing]. lia.
-      * intros Hnd. split; [|cbn [reg]; apply NoDup_remove; exact Hnd].
-        rewrite HrA, HcA, HdA, !held_conn_hsum. cbn [reg orphan_conn].
-        rewrite (hsum_remove sid b (reg s) Hnd Hl). destruct (closing s); lia.
-    + destruct sums_nil as (Hr & Hc & Hd & HrA & HcA & HdA). split.
-      * intros x. rewrite Hr, Hc, Hd. cbn [orphan]. unfold zero. lia.
-      * intros Hnd. split; [|exact Hnd]. rewrite HrA, HcA, HdA. cbn [orphan_conn]. lia.
-  - (* Close *) intros H; injection H as <- <-. destruct sums_nil as (Hr & Hc & Hd & HrA & HcA & HdA). split.
-    + intros x. rewrite Hr, Hc, Hd. cbn [orphan]. unfold zero. rewrite (held_closing x (reg s) true (closing s)).
+      * intros x. rewrite Hr, Hc. cbn [orphan]. unfold zero, at_. destruct (sid =? x); lia.
+      * intros Hnd. split; [|exact Hnd]. rewrite HrA, HcA. cbn [orphan_conn]. lia.
+  - (* EndStream *) intros H. apply with_live_buf_upd in H. eapply upd_balance; try exact H; try reflexivity; [|apply sums_nil].
+    intros b b' ob _ Hb; injection Hb as <- <-. apply buf_eof_op.
+  - (* Read *) intros H. apply with_buf_upd in H. eapply upd_balance; try exact H; try reflexivity;
+      [|apply sums_one_ghost; exact I].
+    intros b b' ob _ Hb. apply (buf_read_op _ _ _ _ _ Hb).
+  - (* Wake *) intros H. apply with_buf_upd in H. eapply upd_balance; try exact H; try reflexivity; [|apply sums_nil].
+    intros b b' ob _ Hb. apply (buf_wake_op _ _ _ _ Hb).
+  - (* Cancel *) intros H. apply with_buf_upd in H. eapply upd_balance; try exact H; try reflexivity; [|apply sums_nil].
+    intros b b' ob _ Hb; injection Hb as <- <-. apply buf_cancel_op.
+  - (* Release *) intros H. apply with_live_buf_upd in H. eapply upd_balance; try exact H; try reflexivity; [|apply sums_nil].
+    intros b b' ob _ Hb; injection Hb as <- <-. apply buf_release_op.
+  - (* Close *) intros H; injection H as <- <-. destruct sums_nil as (Hr & Hc & _ & HrA & HcA & _). split.
+    + intros x. rewrite Hr, Hc. cbn [orphan]. unfold zero. rewrite (queued_closing x (reg s) true (closing s)).
       destruct s as [rg cl]; cbn [reg closing]. lia.
-    + intros Hnd. split; [|exact Hnd]. rewrite HrA, HcA, HdA. cbn [orphan_conn]. rewrite !held_conn_hsum.
+    + intros Hnd. split; [|exact Hnd]. rewrite HrA, HcA. cbn [orphan_conn]. rewrite !queued_conn_hsum.
       cbn [reg]. lia.
+  - (* Pause *) intros H; injection H as <- <-. destruct sums_nil as (Hr & Hc & _ & HrA & HcA & _). split.
+    + intros x. rewrite Hr, Hc. cbn [orphan]. unfold zero. lia.
+    + intros Hnd. split; [|exact Hnd]. rewrite HrA, HcA. cbn [orphan_conn]. lia.
+  - (* Resume *) intros H; injection H as <- <-. destruct sums_nil as (Hr & Hc & _ & HrA & HcA & _). split.
+    + intros x. rewrite Hr, Hc. cbn [orphan]. unfold zero. lia.
+    + intros Hnd. split; [|exact Hnd]. rewrite HrA, HcA. cbn [orphan_conn]. lia.
 Qed.
 
 (* ------------------------------------------------------------------------------------------ *)
@@ -465,23 +621,23 @@ Lemma run_cons s e h s1 o1 s2 o2 :
 Proof. intros H1 H2. cbn [run]. rewrite H1, H2. reflexivity. Qed.
 
 Lemma run_balance h : forall s s' o, run s h = (s', o) ->
-  (forall x, received x o + held x s = credited x o + dropped x o + held x s' + orphans x s h) /\
+  (forall x, received x o + queued x s = credited x o + queued x s' + orphans x s h) /\
   (NoDup (keys (reg s)) ->
-   received_conn o + held_conn s = credited_conn o + dropped_conn o + held_conn s' + orphans_conn s h /\
+   received_conn o + queued_conn s = credited_conn o + queued_conn s' + orphans_conn s h /\
    NoDup (keys (reg s'))).
 Proof.
   induction h as [|e h IH]; intros s s' o H.
   - cbn [run] in H. injection H as <- <-. split.
-    + intros x. unfold received, credited, dropped. rewrite !total_nil. cbn [orphans]. lia.
-    + intros Hnd. split; [|exact Hnd]. unfold received_conn, credited_conn, dropped_conn.
+    + intros x. unfold received, credited. rewrite !total_nil. cbn [orphans]. lia.
+    + intros Hnd. split; [|exact Hnd]. unfold received_conn, credited_conn.
       rewrite !total_nil. cbn [orphans_conn]. lia.
   - cbn [run] in H. destruct (step s e) as [s1 o1] eqn:Hs. destruct (run s1 h) as [s2 o2] eqn:Hr.
     injection H as <- <-. destruct (step_balance _ _ _ _ Hs) as [B1 B2]. destruct (IH _ _ _ Hr) as [I1 I2].
     cbn [orphans orphans_conn]. rewrite Hs. cbn [fst]. split.
     + intros x. specialize (B1 x). specialize (I1 x).
-      unfold received, credited, dropped in *. rewrite !total_app. lia.
+      unfold received, credited in *. rewrite !total_app. lia.
     + intros Hnd. destruct (B2 Hnd) as [B3 Hnd1]. destruct (I2 Hnd1) as [I3 Hnd2]. split; [|exact Hnd2].
-      unfold received_conn, credited_conn, dropped_conn in *. rewrite !total_app. lia.
+      unfold received_conn, credited_conn in *. rewrite !total_app. lia.
 Qed.
 
 Lemma legal_orphans h : forall s, legal s h = true -> (forall x, orphans x s h = 0) /\ orphans_conn s h = 0.
@@ -491,9 +647,9 @@ Proof.
   cbn [orphans orphans_conn]. split.
   - intros x. rewrite I1. destruct e; cbn [orphan]; try lia.
     destruct (lookup sid (reg s)) eqn:Hl; [discriminate|].
-    destruct (sid =? x) eqn:E; [|lia]. assert (sid = x) by lia. subst x. unfold held. rewrite Hl. lia.
+    destruct (sid =? x) eqn:E; [|lia]. assert (sid = x) by lia. subst x. unfold queued. rewrite Hl. lia.
   - rewrite I2. destruct e; cbn [orphan_conn]; try lia.
-    destruct (lookup sid (reg s)) eqn:Hl; [discriminate|]. unfold held. rewrite Hl. lia.
+    destruct (lookup sid (reg s)) eqn:Hl; [discriminate|]. unfold queued. rewrite Hl. lia.
 Qed.
 
 Lemma run_app h1 : forall h2 s s1 o1 s2 o2,
@@ -509,11 +665,7 @@ Qed.
 (* ------------------------------------------------------------------------------------------ *)
 (** * Non-negativity (sizes are lengths) *)
 
-Definition q_ok (q : list item) : Prop := Forall (fun it => 0 <= it_ack it) q.
 Definition reg_ok (r : registry) : Prop := Forall (fun p => q_ok (bq (snd p))) r.
-
-Lemma qsum_nonneg q : q_ok q -> 0 <= qsum q.
-Proof. induction 1 as [|it q Hit _ IH]; [cbn; lia|rewrite qsum_cons; lia]. Qed.
 
 Lemma hsum_nonneg r : reg_ok r -> 0 <= hsum r.
 Proof.
@@ -521,70 +673,31 @@ Proof.
   pose proof (qsum_nonneg _ Hb). lia.
 Qed.
 
-Lemma reg_ok_remove x r : reg_ok r -> reg_ok (remove x r).
+Lemma Forall_remove (P : Z * buf -> Prop) x r : Forall P r -> Forall P (remove x r).
 Proof.
-  unfold reg_ok, remove. intros H. apply Forall_forall. intros p Hp. apply filter_In in Hp as [Hp _].
+  unfold remove. intros H. apply Forall_forall. intros p Hp. apply filter_In in Hp as [Hp _].
   revert p Hp. apply Forall_forall. exact H.
 Qed.
 
+Lemma Forall_set (P : Z * buf -> Prop) x b r : Forall P r -> P (x, b) -> Forall P (set x b r).
+Proof. intros H Hb. unfold set. constructor; [exact Hb|apply Forall_remove; exact H]. Qed.
+
 Lemma reg_ok_set x b r : reg_ok r -> q_ok (bq b) -> reg_ok (set x b r).
-Proof. intros H Hb. unfold set. constructor; [exact Hb|apply reg_ok_remove; exact H]. Qed.
+Proof. intros H Hb. apply Forall_set; assumption. Qed.
 
 Lemma reg_ok_lookup x b r : reg_ok r -> lookup x r = Some b -> q_ok (bq b).
 Proof.
   intros H Hl. apply lookup_in in Hl. unfold reg_ok in H. rewrite Forall_forall in H. apply (H _ Hl).
 Qed.
 
-Lemma held_nonneg x s : reg_ok (reg s) -> 0 <= held x s.
+Lemma queued_nonneg x s : reg_ok (reg s) -> 0 <= queued x s.
 Proof.
-  intros H. unfold held. destruct (lookup x (reg s)) eqn:Hl; [|lia].
+  intros H. unfold queued. destruct (lookup x (reg s)) eqn:Hl; [|lia].
   apply qsum_nonneg. eapply reg_ok_lookup; eassumption.
 Qed.
 
 Lemma fcl_nonneg sid n pad : event_ok (Data sid n pad) = true -> 0 <= fcl n pad.
 Proof. unfold event_ok, fcl. destruct pad; lia. Qed.
-
-(* a buffer operation never lengthens the credit queue and keeps its items non-negative *)
-Definition shrinks (b b' : buf) : Prop := q_ok (bq b') /\ qsum (bq b') <= qsum (bq b).
-
-Lemma read_loop_shrinks sid b size b' o : q_ok (bq b) -> read_loop sid b size = (b', o) -> shrinks b b'.
-Proof.
-  intros Hq. unfold read_loop. destruct (pump (bq b) (backed b) size) as [[[p r] a] stt] eqn:Hp.
-  pose proof (pump_split _ _ _ _ _ _ _ Hp) as Hs. unfold q_ok in Hq. rewrite Hs in Hq.
-  apply Forall_app in Hq as [Hqp Hqr]. pose proof (qsum_nonneg _ Hqp) as Hnn.
-  assert (Hr : forall b1, bq b1 = r -> shrinks b b1).
-  { intros b1 Hb1. unfold shrinks. rewrite Hb1, Hs, qsum_app. split; [exact Hqr|lia]. }
-  destruct stt.
-  - destruct (finish r a (beof b) size) as [b1 res] eqn:Hf. intros H; injection H as <- _.
-    apply Hr. apply (finish_queue _ _ _ _ _ _ Hf).
-  - destruct (finish r a (beof b) size) as [b1 res] eqn:Hf. intros H; injection H as <- _.
-    apply Hr. apply (finish_queue _ _ _ _ _ _ Hf).
-  - intros H; injection H as <- _. apply Hr. reflexivity.
-Qed.
-
-Lemma shrinks_same b b' : q_ok (bq b) -> bq b' = bq b -> shrinks b b'.
-Proof. intros Hq He. unfold shrinks. rewrite He. split; [exact Hq|lia]. Qed.
-
-Lemma buf_read_shrinks sid b size b' o : q_ok (bq b) -> buf_read sid b size = (b', o) -> shrinks b b'.
-Proof.
-  intros Hq. unfold buf_read. destruct (bpend b).
-  { intros H; injection H as <- _. apply shrinks_same; [exact Hq|reflexivity]. }
-  destruct (size <? 0). { intros H; injection H as <- _. apply shrinks_same; [exact Hq|reflexivity]. }
-  destruct (size =? 0). { intros H; injection H as <- _. apply shrinks_same; [exact Hq|reflexivity]. }
-  destruct (beof b && is_nil (bq b)).
-  - destruct (finish (bq b) (backed b) (beof b) size) as [b1 res] eqn:Hf. intros H; injection H as <- _.
-    apply shrinks_same; [exact Hq|apply (finish_queue _ _ _ _ _ _ Hf)].
-  - apply read_loop_shrinks. exact Hq.
-Qed.
-
-Lemma buf_wake_shrinks sid b b' o : q_ok (bq b) -> buf_wake sid b = (b', o) -> shrinks b b'.
-Proof.
-  intros Hq. unfold buf_wake. destruct (bpend b).
-  - destruct (is_nil (bq b)).
-    + intros H; injection H as <- _. apply shrinks_same; [exact Hq|reflexivity].
-    + apply read_loop_shrinks. exact Hq.
-  - intros H; injection H as <- _. apply shrinks_same; [exact Hq|reflexivity].
-Qed.
 
 Definition nonneg (s : st) (e : event) (s' : st) (o : list out) : Prop :=
   reg_ok (reg s') /\
@@ -601,35 +714,34 @@ Proof.
   intros x. rewrite Hr, Hc, Hd. apply Hx.
 Qed.
 
-Lemma with_buf_nonneg s sid f dflt e s' o :
+Lemma upd_nonneg (P : buf -> Prop) s sid f dflt e s' o :
   reg_ok (reg s) ->
-  (forall b b' ob, f b = (b', ob) -> local_ok sid b b' ob) ->
-  (forall b b' ob, q_ok (bq b) -> f b = (b', ob) -> shrinks b b') ->
+  (forall b b' ob, P b -> f b = (b', ob) -> op_ok sid b b' ob) ->
   sums dflt zero zero zero 0 0 0 ->
   (forall x, orphan x s e = 0) -> orphan_conn s e = 0 ->
-  with_buf s sid f dflt = (s', o) -> nonneg s e s' o.
+  upd P s sid f dflt s' o -> nonneg s e s' o.
 Proof.
-  intros Hreg Hf Hsh Hd Ho HoA. unfold with_buf. destruct (lookup sid (reg s)) as [b|] eqn:Hl.
-  - destruct (f b) as [b' ob] eqn:Hfb. intros H; injection H as <- <-.
-    destruct (Hsh _ _ _ (reg_ok_lookup _ _ _ Hreg Hl) Hfb) as [Hq' Hle].
-    eapply nonneg_of_sums; [exact (Hf _ _ _ Hfb)|cbn [reg]; apply reg_ok_set; assumption|..]; try lia.
-    intros x. rewrite Ho. unfold zero, at_. destruct (sid =? x); lia.
-  - intros H; injection H as <- <-.
-    eapply nonneg_of_sums; [exact Hd|exact Hreg|..]; try lia.
+  intros Hreg Hf Hd Ho HoA [-> ->|b b' Hl HP Hfb ->].
+  - eapply nonneg_of_sums; [exact Hd|exact Hreg|..]; try lia.
     intros x. rewrite Ho. unfold zero. lia.
+  - destruct (Hf _ _ _ HP Hfb) as (d & dA & Hs & Hnn).
+    destruct (Hnn (reg_ok_lookup _ _ _ Hreg Hl)) as (Hd1 & Hd2 & Hq' & Hle).
+    eapply nonneg_of_sums; [exact Hs|cbn [reg]; apply reg_ok_set; assumption|..]; try lia.
+    intros x. rewrite Ho. specialize (Hd1 x). unfold zero, at_. destruct (sid =? x); lia.
 Qed.
 
 Lemma step_nonneg s e s' o : reg_ok (reg s) -> event_ok e = true -> step s e = (s', o) -> nonneg s e s' o.
 Proof.
-  intros Hreg Hev. destruct e as [sid|sid n pad|sid|sid size|sid|sid|sid|]; cbn [step].
+  intros Hreg Hev. destruct e as [sid|sid n pad|sid|sid size|sid|sid|sid| | |]; cbn [step].
   - (* Open *) intros H; injection H as <- <-.
     eapply nonneg_of_sums; [exact sums_nil|cbn [reg]; apply reg_ok_set; [exact Hreg|constructor]|..];
       unfold zero; try lia.
-    + intros x. cbn [orphan]. pose proof (held_nonneg x s Hreg). destruct (sid =? x); lia.
-    + cbn [orphan_conn]. apply held_nonneg. exact Hreg.
+    + intros x. cbn [orphan]. pose proof (queued_nonneg x s Hreg). destruct (sid =? x); lia.
+    + cbn [orphan_conn]. apply queued_nonneg. exact Hreg.
   - (* Data *) pose proof (fcl_nonneg _ _ _ Hev) as Hf.
-    destruct (lookup sid (reg s)) as [b|] eqn:Hl; intros H; injection H as <- <-.
-    + eapply nonneg_of_sums; [exact (sums_cons_recv sid (fcl n pad) [] _ _ _ _ _ _ sums_nil)|..];
+    destruct (lookup_live sid (reg s)) as [b|] eqn:Hl; intros H; injection H as <- <-.
+    + apply lookup_live_some in Hl as [Hl _].
+      eapply nonneg_of_sums; [exact (sums_cons_recv sid (fcl n pad) [] _ _ _ _ _ _ sums_nil)|..];
         cbn [orphan orphan_conn]; unfold zero, at_; try lia.
       * cbn [reg]. apply reg_ok_set; [exact Hreg|]. pose proof (reg_ok_lookup _ _ _ Hreg Hl) as Hq.
         unfold buf_add. destruct (fcl n pad =? 0); [exact Hq|]. cbn [bq]. apply Forall_app. split; [exact Hq|].
@@ -639,34 +751,26 @@ Proof.
         [exact (sums_cons_recv sid (fcl n pad) _ _ _ _ _ _ _ (sums_ack_out sid (fcl n pad)))|exact Hreg|..];
         cbn [orphan orphan_conn]; unfold zero, at_; try lia.
       intros x. destruct (sid =? x); lia.
-  - (* EndStream *) apply with_buf_nonneg; try reflexivity; try exact Hreg; [| |apply sums_nil].
-    + intros b b' ob H; injection H as <- <-. unfold local_ok, buf_eof. cbn [bq].
-      rewrite qsum_app. cbn [qsum fold_right eof_marker it_ack].
-      eapply sums_ext; [exact sums_nil|..]; intros; unfold zero, at_; try lia. destruct (sid =? x); lia.
-    + intros b b' ob Hq H; injection H as <- <-. unfold shrinks, buf_eof. cbn [bq]. rewrite qsum_app.
-      cbn [qsum fold_right eof_marker it_ack]. split; [|lia]. apply Forall_app. split; [exact Hq|].
-      constructor; [unfold eof_marker; cbn [it_ack]; lia|constructor].
-  - (* Read *) apply with_buf_nonneg; try reflexivity; try exact Hreg; [| |apply sums_one_ghost; exact I].
-    + intros b b' ob. apply buf_read_ok.
-    + intros b b' ob. apply buf_read_shrinks.
-  - (* Wake *) apply with_buf_nonneg; try reflexivity; try exact Hreg; [| |apply sums_nil].
-    + intros b b' ob. apply buf_wake_ok.
-    + intros b b' ob. apply buf_wake_shrinks.
-  - (* Cancel *) apply with_buf_nonneg; try reflexivity; try exact Hreg; [| |apply sums_nil].
-    + intros b b' ob H; injection H as <- <-. apply local_ok_same; [reflexivity|apply sums_nil].
-    + intros b b' ob Hq H; injection H as <- <-. apply shrinks_same; [exact Hq|reflexivity].
-  - (* Release *) destruct (lookup sid (reg s)) as [b|] eqn:Hl; intros H; injection H as <- <-.
-    + pose proof (qsum_nonneg _ (reg_ok_lookup _ _ _ Hreg Hl)) as Hnn.
-      assert (Hregr : reg_ok (remove sid (reg s))) by (apply reg_ok_remove; exact Hreg).
-      destruct (closing s).
-      * unfold nonneg. cbn [reg orphan orphan_conn]. split; [exact Hregr|].
-        unfold received, credited, dropped, received_conn, credited_conn, dropped_conn.
-        rewrite !total_cons, !total_nil. cbn [recvA credA dropA]. split; [|lia].
-        intros x. rewrite !total_cons, !total_nil. cbn [recv1 cred1 drop1]. destruct (sid =? x); lia.
-      * eapply nonneg_of_sums; [apply sums_ack_out|exact Hregr|..]; cbn [orphan orphan_conn]; unfold zero, at_; try lia.
-        intros x. destruct (sid =? x); lia.
-    + eapply nonneg_of_sums; [exact sums_nil|exact Hreg|..]; cbn [orphan orphan_conn]; unfold zero; try lia.
+  - (* EndStream *) intros H. apply with_live_buf_upd in H.
+    eapply upd_nonneg; try exact H; try reflexivity; try exact Hreg; [|apply sums_nil].
+    intros b b' ob _ Hb; injection Hb as <- <-. apply buf_eof_op.
+  - (* Read *) intros H. apply with_buf_upd in H.
+    eapply upd_nonneg; try exact H; try reflexivity; try exact Hreg; [|apply sums_one_ghost; exact I].
+    intros b b' ob _ Hb. apply (buf_read_op _ _ _ _ _ Hb).
+  - (* Wake *) intros H. apply with_buf_upd in H.
+    eapply upd_nonneg; try exact H; try reflexivity; try exact Hreg; [|apply sums_nil].
+    intros b b' ob _ Hb. apply (buf_wake_op _ _ _ _ Hb).
+  - (* Cancel *) intros H. apply with_buf_upd in H.
+    eapply upd_nonneg; try exact H; try reflexivity; try exact Hreg; [|apply sums_nil].
+    intros b b' ob _ Hb; injection Hb as <- <-. apply buf_cancel_op.
+  - (* Release *) intros H. apply with_live_buf_upd in H.
+    eapply upd_nonneg; try exact H; try reflexivity; try exact Hreg; [|apply sums_nil].
+    intros b b' ob _ Hb; injection Hb as <- <-. apply buf_release_op.
   - (* Close *) intros H; injection H as <- <-.
+    eapply nonneg_of_sums; [exact sums_nil|exact Hreg|..]; cbn [orphan orphan_conn]; unfold zero; try lia.
+  - (* Pause *) intros H; injection H as <- <-.
+    eapply nonneg_of_sums; [exact sums_nil|exact Hreg|..]; cbn [orphan orphan_conn]; unfold zero; try lia.
+  - (* Resume *) intros H; injection H as <- <-.
     eapply nonneg_of_sums; [exact sums_nil|exact Hreg|..]; cbn [orphan orphan_conn]; unfold zero; try lia.
 Qed.
 
@@ -694,6 +798,103 @@ Lemma reg_ok_init : reg_ok (reg init).
 Proof. constructor. Qed.
 
 (* ------------------------------------------------------------------------------------------ *)
+(** * Closing is permanent; released buffers of a live connection are empty *)
+
+Lemma upd_closing (P : buf -> Prop) s sid f dflt s' o : upd P s sid f dflt s' o -> closing s' = closing s.
+Proof. intros [-> _|b b' _ _ _ ->]; reflexivity. Qed.
+
+Lemma step_closing s e s' o : step s e = (s', o) -> closing s' = false -> closing s = false.
+Proof.
+  destruct e as [sid|sid n pad|sid|sid size|sid|sid|sid| | |]; cbn [step].
+  - intros H; injection H as <- _. auto.
+  - destruct (lookup_live sid (reg s)); intros H; injection H as <- _; auto.
+  - intros H. apply with_live_buf_upd, upd_closing in H. congruence.
+  - intros H. apply with_buf_upd, upd_closing in H. congruence.
+  - intros H. apply with_buf_upd, upd_closing in H. congruence.
+  - intros H. apply with_buf_upd, upd_closing in H. congruence.
+  - intros H. apply with_live_buf_upd, upd_closing in H. congruence.
+  - intros H; injection H as <- _. cbn [closing]. discriminate.
+  - intros H; injection H as <- _. auto.
+  - intros H; injection H as <- _. auto.
+Qed.
+
+Lemma run_closing h : forall s s' o, run s h = (s', o) -> closing s' = false -> closing s = false.
+Proof.
+  induction h as [|e h IH]; intros s s' o H Hc.
+  - cbn [run] in H. injection H as <- _. exact Hc.
+  - cbn [run] in H. destruct (step s e) as [s1 o1] eqn:Hs. destruct (run s1 h) as [s2 o2] eqn:Hr.
+    injection H as <- _. eapply step_closing; [exact Hs|]. eapply IH; [exact Hr|exact Hc].
+Qed.
+
+(* every released buffer has an empty queue *)
+Definition rel_empty (r : registry) : Prop := Forall (fun p => brel (snd p) = true -> bq (snd p) = []) r.
+
+Lemma upd_rel_empty (P : buf -> Prop) s sid f dflt s' o :
+  (forall b b' ob, P b -> f b = (b', ob) -> (brel b = true -> bq b = []) -> (brel b' = true -> bq b' = [])) ->
+  upd P s sid f dflt s' o -> rel_empty (reg s) -> rel_empty (reg s').
+Proof.
+  intros Hf [-> _|b b' Hl HP Hfb ->] Hre; [exact Hre|].
+  cbn [reg]. apply Forall_set; [exact Hre|]. cbn [snd]. eapply Hf; [exact HP|exact Hfb|].
+  apply lookup_in in Hl. unfold rel_empty in Hre. rewrite Forall_forall in Hre. apply (Hre _ Hl).
+Qed.
+
+Lemma keeps_rel_empty b b' : keeps b b' -> (brel b = true -> bq b = []) -> (brel b' = true -> bq b' = []).
+Proof. intros [K1 K2] H Hr. rewrite K1 in Hr. apply K2. apply H. exact Hr. Qed.
+
+Lemma step_rel_empty s e s' o : step s e = (s', o) -> closing s = false -> rel_empty (reg s) -> rel_empty (reg s').
+Proof.
+  intros H Hc. revert H. destruct e as [sid|sid n pad|sid|sid size|sid|sid|sid| | |]; cbn [step].
+  - intros H; injection H as <- _. intros Hre. cbn [reg]. apply Forall_set; [exact Hre|]. cbn [snd brel new_buf]. discriminate.
+  - destruct (lookup_live sid (reg s)) as [b|] eqn:Hl; intros H; injection H as <- _; intros Hre; [|exact Hre].
+    apply lookup_live_some in Hl as [_ Hr]. cbn [reg]. apply Forall_set; [exact Hre|]. cbn [snd].
+    unfold buf_add. destruct (fcl n pad =? 0); [rewrite Hr; discriminate|cbn [brel]; rewrite Hr; discriminate].
+  - intros H. apply with_live_buf_upd in H. eapply upd_rel_empty; [|exact H].
+    intros b b' ob Hr Hb _; injection Hb as <- _. cbn [buf_eof brel]. rewrite Hr. discriminate.
+  - intros H. apply with_buf_upd in H. eapply upd_rel_empty; [|exact H].
+    intros b b' ob _ Hb. apply keeps_rel_empty. apply (buf_read_op _ _ _ _ _ Hb).
+  - intros H. apply with_buf_upd in H. eapply upd_rel_empty; [|exact H].
+    intros b b' ob _ Hb. apply keeps_rel_empty. apply (buf_wake_op _ _ _ _ Hb).
+  - intros H. apply with_buf_upd in H. eapply upd_rel_empty; [|exact H].
+    intros b b' ob _ Hb; injection Hb as <- _. apply keeps_rel_empty. apply (buf_cancel_op sid).
+  - intros H. apply with_live_buf_upd in H. eapply upd_rel_empty; [|exact H].
+    intros b b' ob _ Hb _ _; injection Hb as <- _. rewrite Hc. reflexivity.
+  - intros H; injection H as <- _. auto.
+  - intros H; injection H as <- _. auto.
+  - intros H; injection H as <- _. auto.
+Qed.
+
+Lemma run_rel_empty h : forall s s' o, run s h = (s', o) -> closing s' = false -> rel_empty (reg s) -> rel_empty (reg s').
+Proof.
+  induction h as [|e h IH]; intros s s' o H Hc Hre.
+  - cbn [run] in H. injection H as <- _. exact Hre.
+  - cbn [run] in H. destruct (step s e) as [s1 o1] eqn:Hs. destruct (run s1 h) as [s2 o2] eqn:Hr.
+    injection H as <- _. pose proof (run_closing _ _ _ _ Hr Hc) as Hc1.
+    eapply IH; [exact Hr|exact Hc|]. eapply step_rel_empty; [exact Hs| |exact Hre].
+    eapply step_closing; [exact Hs|exact Hc1].
+Qed.
+
+Lemma rel_empty_forfeited r c : rel_empty r -> (forall x, forfeited x (mkSt r c) = 0) /\ forfeited_conn (mkSt r c) = 0.
+Proof.
+  intros H. split.
+  - intros x. unfold forfeited. cbn [reg]. destruct (lookup x r) as [b|] eqn:Hl; [|reflexivity].
+    destruct (brel b) eqn:Hr; [|reflexivity]. apply lookup_in in Hl. unfold rel_empty in H.
+    rewrite Forall_forall in H. pose proof (H _ Hl Hr) as E. cbn [snd] in E. rewrite E. reflexivity.
+  - unfold forfeited_conn. cbn [reg]. induction H as [|[k b] r Hb _ IH]; [reflexivity|].
+    cbn [fold_right snd] in *. destruct (brel b) eqn:Hr; [rewrite (Hb eq_refl)|]; cbn [qsum fold_right]; lia.
+Qed.
+
+(* on a live connection nothing is left in released buffers: reading them again cannot credit anything *)
+Lemma released_buffers_empty h s o : run init h = (s, o) -> closing s = false ->
+  (forall x b, lookup x (reg s) = Some b -> brel b = true -> bq b = []) /\
+  (forall x, forfeited x s = 0) /\ forfeited_conn s = 0.
+Proof.
+  intros H Hc. assert (Hre : rel_empty (reg s)) by (eapply run_rel_empty; [exact H|exact Hc|constructor]).
+  split.
+  - intros x b Hl Hr. apply lookup_in in Hl. unfold rel_empty in Hre. rewrite Forall_forall in Hre. apply (Hre _ Hl Hr).
+  - destruct s as [rg cl]. apply rel_empty_forfeited. exact Hre.
+Qed.
+
+(* ------------------------------------------------------------------------------------------ *)
 (** * Main lemmas *)
 
 (* never over-credited, per stream and for the connection, after every history (no legality needed) *)
@@ -702,81 +903,46 @@ Lemma never_overcredited h s o : forallb event_ok h = true -> run init h = (s, o
 Proof.
   intros Hev H. destruct (run_balance _ _ _ _ H) as [B1 B2].
   destruct (run_nonneg _ _ _ _ reg_ok_init Hev H) as (Hreg & N1 & N2 & N3 & N4 & N5). split.
-  - intros x. specialize (B1 x). specialize (N1 x). pose proof (held_nonneg x s Hreg).
-    unfold held in B1 at 1. cbn [lookup reg init] in B1. lia.
-  - destruct (B2 (NoDup_nil _)) as [B3 _]. rewrite !held_conn_hsum in B3. cbn [reg init hsum fold_right] in B3.
+  - intros x. specialize (B1 x). specialize (N1 x). pose proof (queued_nonneg x s Hreg).
+    unfold queued in B1 at 1. cbn [lookup reg init] in B1. lia.
+  - destruct (B2 (NoDup_nil _)) as [B3 _]. rewrite !queued_conn_hsum in B3. cbn [reg init hsum fold_right] in B3.
     pose proof (hsum_nonneg _ Hreg). lia.
 Qed.
 
-(* conservation: received = credited + dropped + held, per stream and for the connection *)
+(* conservation: received = credited + held (registered buffers) + forfeited (released buffers) *)
 Lemma conservation h s o : legal init h = true -> run init h = (s, o) ->
-  (forall x, received x o = credited x o + dropped x o + held x s) /\
-  received_conn o = credited_conn o + dropped_conn o + held_conn s.
+  (forall x, received x o = credited x o + held x s + forfeited x s) /\
+  received_conn o = credited_conn o + held_conn s + forfeited_conn s.
 Proof.
   intros Hl H. destruct (run_balance _ _ _ _ H) as [B1 B2]. destruct (legal_orphans _ _ Hl) as [O1 O2]. split.
-  - intros x. specialize (B1 x). rewrite O1 in B1. unfold held in B1 at 1. cbn [lookup reg init] in B1. lia.
-  - destruct (B2 (NoDup_nil _)) as [B3 _]. rewrite O2 in B3. rewrite (held_conn_hsum init) in B3.
-    cbn [reg init hsum fold_right] in B3. lia.
+  - intros x. specialize (B1 x). rewrite O1 in B1. unfold queued in B1 at 1. cbn [lookup reg init] in B1.
+    pose proof (held_forfeited x s). lia.
+  - destruct (B2 (NoDup_nil _)) as [B3 _]. rewrite O2 in B3. rewrite (queued_conn_hsum init) in B3.
+    cbn [reg init hsum fold_right] in B3. pose proof (held_forfeited_conn s). lia.
 Qed.
 
-(* nothing is forfeited unless the connection is closing *)
-Lemma with_buf_closing s sid f dflt s' o :
-  (forall b b' ob, f b = (b', ob) -> local_ok sid b b' ob) -> sums dflt zero zero zero 0 0 0 ->
-  with_buf s sid f dflt = (s', o) -> closing s' = closing s /\ (forall x, dropped x o = 0) /\ dropped_conn o = 0.
+(* no leak: on a connection that is still alive, a stream that is not registered (any more) has had all its
+   credit returned, and when no stream is registered so has the connection *)
+Lemma held_conn_none r c : (forall x, lookup_live x r = None) -> NoDup (keys r) -> held_conn (mkSt r c) = 0.
 Proof.
-  intros Hf Hd. unfold with_buf. destruct (lookup sid (reg s)) as [b|].
-  - destruct (f b) as [b' ob] eqn:Hfb. intros H; injection H as <- <-.
-    destruct (Hf _ _ _ Hfb) as (_ & _ & Hdr & _ & _ & HdA). cbn [closing]. auto.
-  - intros H; injection H as <- <-. destruct Hd as (_ & _ & Hdr & _ & _ & HdA). auto.
+  unfold held_conn. cbn [reg]. induction r as [|[k b] r IH]; intros H Hnd; [reflexivity|].
+  cbn [fold_right snd]. cbn [keys map fst] in Hnd. inversion Hnd as [|? ? Hnin Hnd']; subst.
+  assert (Hk := H k). unfold lookup_live in Hk. cbn [lookup] in Hk. rewrite Z.eqb_refl in Hk.
+  destruct (brel b) eqn:Hr; [|discriminate]. rewrite IH; [lia| |exact Hnd'].
+  intros x. specialize (H x). unfold lookup_live in *. cbn [lookup] in H.
+  destruct (k =? x) eqn:E; [|exact H]. assert (k = x) by lia. subst x.
+  rewrite (lookup_not_in k r Hnin). reflexivity.
 Qed.
 
-Lemma step_closing s e s' o : step s e = (s', o) -> closing s' = false ->
-  closing s = false /\ (forall x, dropped x o = 0) /\ dropped_conn o = 0.
-Proof.
-  destruct e as [sid|sid n pad|sid|sid size|sid|sid|sid|]; cbn [step].
-  - intros H; injection H as <- <-. cbn [closing]. auto.
-  - destruct (lookup sid (reg s)); intros H; injection H as <- <-; cbn [closing]; intros Hc.
-    + destruct (sums_cons_recv sid (fcl n pad) [] _ _ _ _ _ _ sums_nil) as (_ & _ & Hd & _ & _ & HdA). auto.
-    + destruct (sums_cons_recv sid (fcl n pad) _ _ _ _ _ _ _ (sums_ack_out sid (fcl n pad)))
-        as (_ & _ & Hd & _ & _ & HdA). auto.
-  - intros H Hc. eapply with_buf_closing in H as (H1 & H2 & H3); [rewrite <- H1; auto| |apply sums_nil].
-    intros b b' ob Hb; injection Hb as <- <-. unfold local_ok, buf_eof. cbn [bq].
-    rewrite qsum_app. cbn [qsum fold_right eof_marker it_ack].
-    eapply sums_ext; [exact sums_nil|..]; intros; unfold zero, at_; try lia. destruct (sid =? x); lia.
-  - intros H Hc. eapply with_buf_closing in H as (H1 & H2 & H3);
-      [rewrite <- H1; auto| |apply sums_one_ghost; exact I].
-    intros b b' ob. apply buf_read_ok.
-  - intros H Hc. eapply with_buf_closing in H as (H1 & H2 & H3); [rewrite <- H1; auto| |apply sums_nil].
-    intros b b' ob. apply buf_wake_ok.
-  - intros H Hc. eapply with_buf_closing in H as (H1 & H2 & H3); [rewrite <- H1; auto| |apply sums_nil].
-    intros b b' ob Hb; injection Hb as <- <-. apply local_ok_same; [reflexivity|apply sums_nil].
-  - destruct (lookup sid (reg s)) as [b|]; intros H; injection H as <- <-; cbn [closing]; intros Hc.
-    + rewrite Hc. destruct (sums_ack_out sid (qsum (bq b))) as (_ & _ & Hd & _ & _ & HdA). auto.
-    + destruct sums_nil as (_ & _ & Hd & _ & _ & HdA). auto.
-  - intros H; injection H as <- <-. cbn [closing]. discriminate.
-Qed.
-
-Lemma run_closing h : forall s s' o, run s h = (s', o) -> closing s' = false ->
-  closing s = false /\ (forall x, dropped x o = 0) /\ dropped_conn o = 0.
-Proof.
-  induction h as [|e h IH]; intros s s' o H Hc.
-  - cbn [run] in H. injection H as <- <-. destruct sums_nil as (_ & _ & Hd & _ & _ & HdA). auto.
-  - cbn [run] in H. destruct (step s e) as [s1 o1] eqn:Hs. destruct (run s1 h) as [s2 o2] eqn:Hr.
-    injection H as <- <-. destruct (IH _ _ _ Hr Hc) as (C1 & D1 & D2).
-    destruct (step_closing _ _ _ _ Hs C1) as (C0 & D3 & D4). split; [exact C0|].
-    unfold dropped, dropped_conn in *. split; [intros x|]; rewrite total_app; rewrite ?D1, ?D2, ?D3, ?D4; reflexivity.
-Qed.
-
-(* no leak: on a connection that is still alive, a released stream has had all its credit returned, and
-   when every stream has been released so has the connection *)
 Lemma no_leak h s o : legal init h = true -> run init h = (s, o) -> closing s = false ->
-  (forall x, lookup x (reg s) = None -> credited x o = received x o) /\
-  (reg s = [] -> credited_conn o = received_conn o).
+  (forall x, lookup_live x (reg s) = None -> credited x o = received x o) /\
+  ((forall x, lookup_live x (reg s) = None) -> credited_conn o = received_conn o).
 Proof.
   intros Hl H Hc. destruct (conservation _ _ _ Hl H) as [C1 C2].
-  destruct (run_closing _ _ _ _ H Hc) as (_ & D1 & D2). split.
-  - intros x Hx. specialize (C1 x). rewrite D1 in C1. unfold held in C1. rewrite Hx in C1. lia.
-  - intros Hreg. rewrite D2, held_conn_hsum, Hreg in C2. cbn [hsum fold_right] in C2. lia.
+  destruct (released_buffers_empty _ _ _ H Hc) as (_ & F1 & F2). split.
+  - intros x Hx. specialize (C1 x). rewrite F1 in C1. unfold held in C1. rewrite Hx in C1. lia.
+  - intros Hreg. destruct (run_balance _ _ _ _ H) as [_ B2]. destruct (B2 (NoDup_nil _)) as [_ Hnd].
+    destruct s as [rg cl]. cbn [reg] in *. rewrite F2, (held_conn_none rg cl Hreg Hnd) in C2. lia.
 Qed.
 
 (* credit only grows, and stays below what was received: together with no_leak, every received byte is
@@ -784,7 +950,7 @@ Qed.
 Lemma exactly_once h1 h2 s1 o1 s o :
   forallb event_ok (h1 ++ h2) = true -> legal init (h1 ++ h2) = true ->
   run init h1 = (s1, o1) -> run init (h1 ++ h2) = (s, o) -> closing s = false ->
-  forall x, lookup x (reg s) = None ->
+  forall x, lookup_live x (reg s) = None ->
   credited x o1 <= received x o1 /\ received x o1 <= received x o /\ credited x o1 <= credited x o /\
   credited x o = received x o.
 Proof.
@@ -806,20 +972,21 @@ Definition stop_reason (b : buf) (size : Z) (p r : list item) : Prop :=
   r = [] \/ size <= backed b + lsum p \/ exists p0 m, p = p0 ++ [m] /\ it_ack m = 0.
 
 Lemma read_loop_minimal sid b size b' o : read_loop sid b size = (b', o) ->
-  exists p r, bq b = p ++ r /\ bq b' = r /\
+  exists p r, bq b = p ++ r /\ bq b' = r /\ brel b' = brel b /\
     (forall x, credited x o = if sid =? x then qsum p else 0) /\ credited_conn o = qsum p /\
     (forall p1 it p2, p = p1 ++ it :: p2 -> backed b + lsum p1 < size) /\
     stop_reason b size p r.
 Proof.
   intros H. pose proof (read_loop_ok _ _ _ _ _ H) as (_ & Hc & _ & _ & HcA & _).
+  destruct (read_loop_queue _ _ _ _ _ H) as (p' & Hq' & Hrel).
   unfold read_loop in H. destruct (pump (bq b) (backed b) size) as [[[p r] a] stt] eqn:Hp.
   destruct (pump_spec _ _ _ _ _ _ _ Hp) as (Hq & Hmin & Hst).
   assert (Hb' : bq b' = r).
   { destruct stt.
-    - destruct (finish r a (beof b) size) as [b1 res] eqn:Hf. injection H as <- _. apply (finish_queue _ _ _ _ _ _ Hf).
-    - destruct (finish r a (beof b) size) as [b1 res] eqn:Hf. injection H as <- _. apply (finish_queue _ _ _ _ _ _ Hf).
+    - destruct (finish r a (beof b) (brel b) size) as [b1 res] eqn:Hf. injection H as <- _. apply (finish_queue _ _ _ _ _ _ _ Hf).
+    - destruct (finish r a (beof b) (brel b) size) as [b1 res] eqn:Hf. injection H as <- _. apply (finish_queue _ _ _ _ _ _ _ Hf).
     - injection H as <- _. reflexivity. }
-  exists p, r. split; [exact Hq|]. split; [exact Hb'|].
+  exists p, r. split; [exact Hq|]. split; [exact Hb'|]. split; [exact Hrel|].
   assert (Hd : qsum (bq b) - qsum (bq b') = qsum p) by (rewrite Hb', Hq, qsum_app; lia).
   split; [|split; [|split]].
   - intros x. rewrite Hc. unfold at_. rewrite Hd. reflexivity.
@@ -832,9 +999,9 @@ Proof.
 Qed.
 
 Definition read_effect (s : st) (sid size : Z) (b : buf) (s' : st) (o : list out) : Prop :=
-  exists p r b', bq b = p ++ r /\ lookup sid (reg s') = Some b' /\ bq b' = r /\
+  exists p r b', bq b = p ++ r /\ lookup sid (reg s') = Some b' /\ bq b' = r /\ brel b' = brel b /\
     credited sid o = qsum p /\ credited_conn o = qsum p /\ (forall x, x <> sid -> credited x o = 0) /\
-    held sid s' = qsum r /\
+    queued sid s' = qsum r /\
     (forall p1 it p2, p = p1 ++ it :: p2 -> backed b + lsum p1 < size) /\
     stop_reason b size p r.
 
@@ -842,11 +1009,11 @@ Lemma read_effect_of_loop s sid size b b' o :
   lookup sid (reg s) = Some b -> read_loop sid b size = (b', o) ->
   read_effect s sid size b (mkSt (set sid b' (reg s)) (closing s)) o.
 Proof.
-  intros Hl H. destruct (read_loop_minimal _ _ _ _ _ H) as (p & r & Hq & Hb' & Hc & HcA & Hmin & Hst).
+  intros Hl H. destruct (read_loop_minimal _ _ _ _ _ H) as (p & r & Hq & Hb' & Hrel & Hc & HcA & Hmin & Hst).
   exists p, r, b'. cbn [reg]. rewrite lookup_set, Z.eqb_refl. repeat split; auto.
   - rewrite Hc, Z.eqb_refl. reflexivity.
   - intros x Hx. rewrite Hc. destruct (sid =? x) eqn:E; [exfalso; lia|reflexivity].
-  - rewrite held_set, Z.eqb_refl, Hb'. reflexivity.
+  - rewrite queued_set, Z.eqb_refl, Hb'. reflexivity.
 Qed.
 
 Lemma read_backpressure s sid size b s' o :
@@ -856,10 +1023,10 @@ Proof.
   intros Hl Hp Hs. cbn [step]. unfold with_buf. rewrite Hl. unfold buf_read. rewrite Hp.
   destruct (size <? 0) eqn:E1; [exfalso; lia|]. destruct (size =? 0) eqn:E2; [exfalso; lia|].
   destruct (beof b && is_nil (bq b)) eqn:E3.
-  - destruct (finish (bq b) (backed b) (beof b) size) as [b1 res] eqn:Hf. intros H; injection H as <- <-.
+  - destruct (finish (bq b) (backed b) (beof b) (brel b) size) as [b1 res] eqn:Hf. intros H; injection H as <- <-.
     apply andb_true_iff in E3 as [_ E3]. destruct (bq b) as [|it q] eqn:Hq; [|discriminate].
-    pose proof (finish_queue _ _ _ _ _ _ Hf) as Hq1.
-    exists [], [], b1. cbn [reg]. rewrite lookup_set, Z.eqb_refl, held_set, Z.eqb_refl, Hq1.
+    pose proof (finish_queue _ _ _ _ _ _ _ Hf) as Hq1. pose proof (finish_rel _ _ _ _ _ _ _ Hf) as Hr1.
+    exists [], [], b1. cbn [reg]. rewrite lookup_set, Z.eqb_refl, queued_set, Z.eqb_refl, Hq1.
     unfold credited, credited_conn. rewrite !total_cons, !total_nil. cbn [cred1 credA qsum fold_right app].
     repeat split; auto.
     + intros p1 it p2 Hpp. destruct p1; discriminate.
@@ -878,6 +1045,25 @@ Proof.
   exact (read_effect_of_loop s sid size b b1 o1 Hl Hrl).
 Qed.
 
+(* a read on a buffer whose queue is empty (every released buffer of a live connection) credits nothing *)
+Lemma read_empty_queue_credits_nothing s sid b e s' o :
+  lookup sid (reg s) = Some b -> bq b = [] -> (exists size, e = Read sid size) \/ e = Wake sid ->
+  step s e = (s', o) -> (forall x, credited x o = 0) /\ credited_conn o = 0 /\ queued sid s' = 0.
+Proof.
+  intros Hl Hq He H.
+  assert (Hop : exists b', op_ok sid b b' o /\ keeps b b' /\ s' = mkSt (set sid b' (reg s)) (closing s)).
+  { destruct He as [[size He]|He]; rewrite He in H; cbn [step] in H; unfold with_buf in H; rewrite Hl in H.
+    - destruct (buf_read sid b size) as [b' ob] eqn:Hb. injection H as <- <-. exists b'.
+      destruct (buf_read_op _ _ _ _ _ Hb). auto.
+    - destruct (buf_wake sid b) as [b' ob] eqn:Hb. injection H as <- <-. exists b'.
+      destruct (buf_wake_op _ _ _ _ Hb). auto. }
+  destruct Hop as (b' & (d & dA & (_ & Hc & _ & _ & HcA & _) & _) & [_ K] & Hs'). subst s'.
+  pose proof (K Hq) as Hq'. rewrite Hq, Hq' in Hc, HcA. cbn [qsum fold_right] in Hc, HcA. split; [|split].
+  - intros x. rewrite Hc. unfold at_. destruct (sid =? x); reflexivity.
+  - rewrite HcA. reflexivity.
+  - rewrite queued_set, Z.eqb_refl, Hq'. reflexivity.
+Qed.
+
 (* ------------------------------------------------------------------------------------------ *)
 (** * Release, data for unknown streams *)
 
@@ -890,38 +1076,45 @@ Proof.
   - intros x Hx. rewrite Hc. unfold at_. destruct (sid =? x) eqn:E; [exfalso; lia|reflexivity].
 Qed.
 
+Lemma lookup_live_set x y b r :
+  lookup_live x (set y b r) = if y =? x then (if brel b then None else Some b) else lookup_live x r.
+Proof. unfold lookup_live. rewrite lookup_set. destruct (y =? x); reflexivity. Qed.
+
 Lemma release_credits_rest s sid b s' o :
-  lookup sid (reg s) = Some b -> closing s = false -> step s (Release sid) = (s', o) ->
+  lookup_live sid (reg s) = Some b -> closing s = false -> step s (Release sid) = (s', o) ->
   credited sid o = qsum (bq b) /\ credited_conn o = qsum (bq b) /\ (forall x, x <> sid -> credited x o = 0) /\
-  lookup sid (reg s') = None /\ held sid s' = 0 /\ (forall x, x <> sid -> lookup x (reg s') = lookup x (reg s)).
+  lookup_live sid (reg s') = None /\ held sid s' = 0 /\ queued sid s' = 0 /\
+  (forall x, x <> sid -> lookup x (reg s') = lookup x (reg s)).
 Proof.
-  intros Hl Hc. cbn [step]. rewrite Hl, Hc. intros H; injection H as <- <-.
+  intros Hl Hc. cbn [step]. unfold with_live_buf. rewrite Hl, Hc. intros H; injection H as <- <-.
   destruct (credited_ack_out sid (qsum (bq b))) as (C1 & C2 & C3). repeat split; auto.
-  - cbn [reg]. rewrite lookup_remove, Z.eqb_refl. reflexivity.
-  - rewrite held_remove, Z.eqb_refl. reflexivity.
-  - intros x Hx. cbn [reg]. rewrite lookup_remove. destruct (x =? sid) eqn:E; [exfalso; lia|reflexivity].
+  - cbn [reg]. rewrite lookup_live_set, Z.eqb_refl. reflexivity.
+  - unfold held. cbn [reg]. rewrite lookup_live_set, Z.eqb_refl. reflexivity.
+  - rewrite queued_set, Z.eqb_refl. reflexivity.
+  - intros x Hx. cbn [reg]. rewrite lookup_set. destruct (sid =? x) eqn:E; [exfalso; lia|reflexivity].
 Qed.
 
 Lemma release_closing_forfeits s sid b s' o :
-  lookup sid (reg s) = Some b -> closing s = true -> step s (Release sid) = (s', o) ->
+  lookup_live sid (reg s) = Some b -> closing s = true -> step s (Release sid) = (s', o) ->
   (forall x, credited x o = 0) /\ credited_conn o = 0 /\ dropped sid o = qsum (bq b) /\
-  dropped_conn o = qsum (bq b) /\ lookup sid (reg s') = None.
+  lookup_live sid (reg s') = None /\ held sid s' = 0 /\ forfeited sid s' = qsum (bq b).
 Proof.
-  intros Hl Hc. cbn [step]. rewrite Hl, Hc. intros H; injection H as <- <-.
-  unfold credited, credited_conn, dropped, dropped_conn. rewrite !total_cons, !total_nil.
-  cbn [cred1 credA drop1 dropA reg]. rewrite Z.eqb_refl, lookup_remove, Z.eqb_refl. repeat split; try lia.
+  intros Hl Hc. cbn [step]. unfold with_live_buf. rewrite Hl, Hc. intros H; injection H as <- <-.
+  unfold credited, credited_conn, dropped, held, forfeited. rewrite !total_cons, !total_nil.
+  cbn [cred1 credA drop1 reg]. rewrite Z.eqb_refl, lookup_live_set, lookup_set, Z.eqb_refl. cbn [brel buf_release bq].
+  repeat split; try lia.
 Qed.
 
 Lemma release_idempotent s sid s1 o1 :
   step s (Release sid) = (s1, o1) -> step s1 (Release sid) = (s1, []).
 Proof.
-  cbn [step]. destruct (lookup sid (reg s)) as [b|] eqn:Hl; intros H; injection H as <- _.
-  - cbn [reg]. rewrite lookup_remove, Z.eqb_refl. reflexivity.
+  cbn [step]. unfold with_live_buf. destruct (lookup_live sid (reg s)) as [b|] eqn:Hl; intros H; injection H as <- _.
+  - cbn [reg]. rewrite lookup_live_set, Z.eqb_refl. reflexivity.
   - rewrite Hl. reflexivity.
 Qed.
 
 Lemma data_unregistered_credited_at_once s sid n pad s' o :
-  lookup sid (reg s) = None -> step s (Data sid n pad) = (s', o) ->
+  lookup_live sid (reg s) = None -> step s (Data sid n pad) = (s', o) ->
   s' = s /\ received sid o = fcl n pad /\ credited sid o = fcl n pad /\
   received_conn o = fcl n pad /\ credited_conn o = fcl n pad.
 Proof.
@@ -932,49 +1125,58 @@ Proof.
 Qed.
 
 Lemma data_registered_not_credited s sid n pad b s' o :
-  lookup sid (reg s) = Some b -> step s (Data sid n pad) = (s', o) ->
+  lookup_live sid (reg s) = Some b -> step s (Data sid n pad) = (s', o) ->
   (forall x, credited x o = 0) /\ credited_conn o = 0 /\ received sid o = fcl n pad /\
   held sid s' = held sid s + fcl n pad.
 Proof.
   intros Hl. cbn [step]. rewrite Hl. intros H; injection H as <- <-.
   destruct (sums_cons_recv sid (fcl n pad) [] _ _ _ _ _ _ sums_nil) as (Hr & Hc & _ & _ & HcA & _).
-  rewrite Hr, HcA, held_set, Z.eqb_refl. unfold at_, zero. rewrite Z.eqb_refl. unfold held. rewrite Hl.
-  repeat split; try lia.
-  unfold buf_add. destruct (fcl n pad =? 0) eqn:E; [lia|]. cbn [bq]. rewrite qsum_app.
-    cbn [qsum fold_right it_ack]. lia.
+  pose proof (lookup_live_some _ _ _ Hl) as [_ Hrel].
+  rewrite Hr, HcA. unfold held. cbn [reg]. rewrite lookup_live_set, Z.eqb_refl, Hl.
+  assert (Hrel' : brel (buf_add b n (fcl n pad)) = false).
+  { unfold buf_add. destruct (fcl n pad =? 0); [exact Hrel|exact Hrel]. }
+  rewrite Hrel', qsum_buf_add. unfold at_, zero. rewrite Z.eqb_refl. repeat split; try lia.
 Qed.
+
+(* pausing / resuming the transport changes nothing: credit does not wait for write-readiness *)
+Lemma pause_resume_identity s : step s Pause = (s, []) /\ step s Resume = (s, []).
+Proof. split; reflexivity. Qed.
 
 (* ------------------------------------------------------------------------------------------ *)
 (** * Legal histories: h2 never repeats a stream id *)
 
+Lemma upd_known (P : buf -> Prop) s sid f dflt s' o x :
+  upd P s sid f dflt s' o -> lookup x (reg s') <> None -> lookup x (reg s) <> None.
+Proof.
+  intros [-> _|b b' Hl _ _ ->]; [auto|]. cbn [reg]. rewrite lookup_set.
+  destruct (sid =? x) eqn:E; [|auto]. intros _. assert (sid = x) by lia. subst. rewrite Hl. discriminate.
+Qed.
+
 Lemma step_registered_opened s e x :
   lookup x (reg (fst (step s e))) <> None -> lookup x (reg s) <> None \/ e = Open x.
 Proof.
-  destruct e as [sid|sid n pad|sid|sid size|sid|sid|sid|]; cbn [step].
+  destruct e as [sid|sid n pad|sid|sid size|sid|sid|sid| | |]; cbn [step].
   - cbn [fst reg]. rewrite lookup_set. destruct (sid =? x) eqn:E; [right; f_equal; lia|left; exact H].
-  - destruct (lookup sid (reg s)) eqn:Hl; cbn [fst reg]; [|left; exact H].
+  - destruct (lookup_live sid (reg s)) eqn:Hl; cbn [fst reg]; [|left; exact H].
+    apply lookup_live_some in Hl as [Hl _].
     rewrite lookup_set. destruct (sid =? x) eqn:E; [|left; exact H].
     intros _. left. assert (sid = x) by lia. subst. rewrite Hl. discriminate.
-  - unfold with_buf. destruct (lookup sid (reg s)) eqn:Hl; cbn [fst reg]; [|left; exact H].
-    rewrite lookup_set. destruct (sid =? x) eqn:E; [|left; exact H].
-    intros _. left. assert (sid = x) by lia. subst. rewrite Hl. discriminate.
-  - unfold with_buf. destruct (lookup sid (reg s)) eqn:Hl; [|cbn [fst reg]; left; exact H].
-    destruct (buf_read sid b size). cbn [fst reg].
-    rewrite lookup_set. destruct (sid =? x) eqn:E; [|left; exact H].
-    intros _. left. assert (sid = x) by lia. subst. rewrite Hl. discriminate.
-  - unfold with_buf. destruct (lookup sid (reg s)) eqn:Hl; [|cbn [fst reg]; left; exact H].
-    destruct (buf_wake sid b). cbn [fst reg].
-    rewrite lookup_set. destruct (sid =? x) eqn:E; [|left; exact H].
-    intros _. left. assert (sid = x) by lia. subst. rewrite Hl. discriminate.
-  - unfold with_buf. destruct (lookup sid (reg s)) eqn:Hl; cbn [fst reg]; [|left; exact H].
-    rewrite lookup_set. destruct (sid =? x) eqn:E; [|left; exact H].
-    intros _. left. assert (sid = x) by lia. subst. rewrite Hl. discriminate.
-  - destruct (lookup sid (reg s)) eqn:Hl; cbn [fst reg]; [|left; exact H].
-    rewrite lookup_remove. destruct (x =? sid); [intros H; contradiction|left; exact H].
+  - intros H. left. destruct (with_live_buf s sid _ _) as [s' o] eqn:Hw. apply with_live_buf_upd in Hw.
+    eapply upd_known; [exact Hw|exact H].
+  - intros H. left. destruct (with_buf s sid _ _) as [s' o] eqn:Hw. apply with_buf_upd in Hw.
+    eapply upd_known; [exact Hw|exact H].
+  - intros H. left. destruct (with_buf s sid _ _) as [s' o] eqn:Hw. apply with_buf_upd in Hw.
+    eapply upd_known; [exact Hw|exact H].
+  - intros H. left. destruct (with_buf s sid _ _) as [s' o] eqn:Hw. apply with_buf_upd in Hw.
+    eapply upd_known; [exact Hw|exact H].
+  - intros H. left. destruct (with_live_buf s sid _ _) as [s' o] eqn:Hw. apply with_live_buf_upd in Hw.
+    eapply upd_known; [exact Hw|exact H].
   - cbn [fst reg]. left. exact H.
+  - cbn [fst]. left. exact H.
+  - cbn [fst]. left. exact H.
 Qed.
 
-(* if the ids opened in h are pairwise distinct and none of them is registered at the start, h is legal *)
+(* if the ids opened in h are pairwise distinct and none of them has been used at the start, h is legal *)
 Lemma nodup_opens_legal h : forall s,
   NoDup (opens h) -> (forall x, In x (opens h) -> lookup x (reg s) = None) -> legal s h = true.
 Proof.
@@ -991,6 +1193,7 @@ Qed.
 
 Lemma nodup_opens_legal_init h : NoDup (opens h) -> legal init h = true.
 Proof. intros H. apply nodup_opens_legal; [exact H|]. intros x _. reflexivity. Qed.
+
 
 (* ------------------------------------------------------------------------------------------ *)
 (** * The advertised windows *)
